@@ -18,7 +18,7 @@ func (p *c04) Setup(env *fw.Env) error {
 	p.Env = env
 	xgocWarm(env)
 	p.N = env.Pick(40, 1500)
-	p.RuleS = "each case is an XGo program holding 5 generated range expressions start:end:step (|start|,|end| <= 12, |step| in 1..5, step omitted / start omitted forms, each operand written as a literal, a variable or a computed call), each used in nine contexts: for i <- R, for i in R, for i := range R, for j = range R, for range R (count), for i <- R if filter, [i for i <- R], [i for i <- R if filter] and {i: i*i for i <- R}. The program is compiled by the XGo compiler, built and run; every context prints the sequence it enumerated on a tagged line. Oracle: each line equals the sequence of the reference model (i = start; step>0 ? i<end : i>end; i += step) — so all contexts agree with each other and with the documented meaning. Loops carry an iteration guard (60 iterations, marker 99999) so that a runaway loop is reported, not suffered. Every context that differs is reported under its own site (context/step class)."
+	p.RuleS = "each case is an XGo program holding 5 generated range expressions start:end:step (|start|,|end| <= 12, |step| in 1..5, step omitted / start omitted forms, each operand written as a literal, a variable or a computed call), each used in nine contexts: for i <- R, for i in R, for i := range R, for j = range R, for range R (count), for i <- R if filter, [i for i <- R], [i for i <- R if filter] and {i: i*i for i <- R}. The program is compiled by the XGo compiler, built and run; every context prints the sequence it enumerated on a tagged line. Oracle: each line equals the sequence of the reference model (i = start; step>0 ? i<end : i>end; i += step) — so all contexts agree with each other and with the documented meaning. Three further loops have bounds written len(x) while the body grows x: the operands are evaluated once. Loops carry an iteration guard (60 iterations, marker 99999) so that a runaway loop is reported, not suffered. Every context that differs is reported under its own site (context/step class)."
 	p.Assume = []string{"the documented examples (doc/docs.md, Range for) fix the meaning for positive steps; for negative steps the model is the runtime range object's (x/xgo.NewRange) descending enumeration, which the property requires every context to agree with"}
 	p.Floor = map[string]int{"#evaluations": p.N * 9 / 10, "#nontrivial": 1, "programs-executed": p.N * 9 / 10, "stdout-lines-compared": p.N * 30, "triple:step-negative": p.N, "triple:step-positive": p.N, "triple:empty-span": p.N / 2, "triple:non-divisible-span": p.N / 2}
 	return nil
@@ -142,6 +142,14 @@ func (p *c04) build(c fw.Case, r *fw.Rec) pairBuild {
 		fmt.Fprintf(&src, "echo %s, {i: i*i for i <- %s}\n", tag("map-comprehension"), rs)
 		line("map-comprehension", sq)
 	}
+	// the operands are evaluated once, before the first iteration (like the runtime range object of a comprehension):
+	// a bound written len(x) / cap(x) must not follow x when the body changes it
+	for k, form := range []string{"for i <- 0:len(grow@)", "for i := range :len(grow@)", "for i <- 1:len(grow@):len(two@)"} {
+		form = strings.ReplaceAll(form, "@", fmt.Sprint(k))
+		fmt.Fprintf(&src, "grow%d, two%d := [1, 2, 3], [0, 0]\n_ = two%d\nacc, n = nil, 0\n%s {\n\tn++\n\tif n > 60 {\n\t\tacc = append(acc, 99999)\n\t\tbreak\n\t}\n\tgrow%d <- 9\n\ttwo%d <- 9\n\tacc = append(acc, i)\n}\necho \"bound-evaluated-once/%d:\", acc\n", k, k, k, form, k, k, k)
+		fmt.Fprintf(&want, "bound-evaluated-once/%d: %v\n", k, [][]int{{0, 1, 2}, {0, 1, 2}, {1}}[k])
+	}
+	r.Cover("bound-evaluated-once-scenarios")
 	exp := want.String()
 	return pairBuild{
 		XGo:    map[string]string{"main.xgo": src.String()},
